@@ -618,15 +618,10 @@ def apply_op(W, op, rec=None):
             return None
         if rec is not None and hasattr(rec, "selfassign"):
             rec.selfassign = (attr, image)
-        val = cur
-        if shape == "items":
-            val = cur.items()
-        elif shape == "gen":
-            val = ((k, v) for k, v in cur.items())
-        elif shape == "dict":
-            val = dict(cur)
-        elif shape == "list":
-            val = list(cur.items())
+        val = catch(lambda: {"view": lambda: cur, "items": lambda: cur.items(), "gen": lambda: ((k, v) for k, v in cur.items()),
+                             "dict": lambda: dict(cur), "list": lambda: list(cur.items())}[shape]())
+        if isinstance(val, Err):      # the view cannot be read (outside-domain environ): nothing to assign
+            return None
         return canon(catch(setattr, req, attr, val))
     if t == "fork":           # ["fork", w, how]: a further live wrapper over a COPY of the environ; the history goes on there
         how = op[2]
@@ -2126,7 +2121,10 @@ def rand_model_op(rng):
         n, v = rng.choice(COOKIE_NAMES), rng.choice(COOKIE_VALS)
         return ["cookies", w, "fresh", [t, n, v] if t == "set" else ([t, n] if t == "del" else [t])]
     if fam == "cc":
-        return ["cc", w, rand_how(rng), rand_cc(rng)]
+        m = rand_cc(rng)
+        while m[0] == "prop_popitem":      # (pops the LAST inserted property: the model keeps properties sorted; oracle only)
+            m = rand_cc(rng)
+        return ["cc", w, rand_how(rng), m]
     if fam == "hold":
         return ["hold", w, rng.choice(["GET", "cc"])]
     if fam == "read":
